@@ -125,7 +125,7 @@ def make_decompile_lemma(n, trace):
         with native():
             parts = [_family((fam + i) % 4 if i != 1 else 3, x) for i, x in enumerate(xs)]
             rc, out, txt, _, _ = run_cli(["fickling"] + (["--trace"] if trace else []), b"".join(parts))
-            rt.reach(n > 1)
+            rt.reach()
             if rc != 0:
                 return False
             if trace:
